@@ -152,6 +152,14 @@ def one_subset(args):
                 out["violations"].append(("C17:build_tests", "the crate's tests do not compile with features [%s]: %s" % (fs, " | ".join(errs))))
             else:
                 out["inconclusive"].append("cargo test [%s] failed for environmental reasons: %s" % (fs, o[-300:]))
+    # 1b. dependency features: a subset without `std` must not switch on `std` in any normal dependency
+    if "std" not in feats:
+        rc, o, dt = sh(["cargo", "tree", "--offline", "-e", "features,normal"] + fargs, fw.REPO, e, 300)
+        leaks = sorted(set(re.findall(r"([A-Za-z0-9_-]+) feature \"std\"", o))) if rc == 0 else []
+        out["steps"]["std_features_in_dependencies"] = leaks
+        if leaks:
+            out["violations"].append(("C17:std_enabled_in_dependency:%s" % leaks[0],
+                                      "with features [%s] (no std) the dependency graph enables the `std` feature of %s: a no_std consumer can no longer build on the crate (build-graph observation)" % (fs, ", ".join(leaks))))
     # 2. driver with the same subset (hooks on), corpus replay
     b = fw.Build("feat%d" % worker, features=list(feats), no_default=True)
     e2 = dict(e)
